@@ -219,8 +219,18 @@ def explore(ctx):
             node = c.node
         dict_attrs = []
         bad_keys = []
+        T = 'tag:yaml.org,2002:'
+        # collections that carry an explicit scalar tag (`!!str [a, b]`, `!!int {a: 1}`): legal YAML, and a
+        # helper that looked at the tag alone would take them for scalars
+        if not getattr(c, 'directed', False) and rng.random() < 0.12:
+            colls = [x for x in cands if isinstance(x, (yaml.SequenceNode, yaml.MappingNode))]
+            if colls:
+                tgt = rng.choice(colls)
+                tgt.tag = T + rng.choice(['str', 'int', 'float', 'bool', 'null'])
+                ctx.count('collections_with_scalar_tags')
+                if rng.random() < 0.6:
+                    node = tgt
         if isinstance(node, yaml.MappingNode):
-            T = 'tag:yaml.org,2002:'
             for kk, x in node.value:
                 # explicitly tagged scalars that PyYAML's constructors refuse in different ways
                 if isinstance(x, yaml.ScalarNode) and rng.random() < 0.2:
